@@ -103,6 +103,10 @@ pub enum Op {
     /// spans the steps left open (they are dropped in reverse order while the thread is
     /// panicking) and is caught by the caller, e.g. a request handler under `catch_unwind`
     Unwind { steps: Vec<Op> },
+    /// `set_reporter` once more with the same reporter and configuration (an application that
+    /// re-initialises tracing); the library starts a fresh collector, whose background thread
+    /// runs one cycle at once. Only used by templates whose oracle looks at retained state.
+    SetReporter,
 }
 
 impl Op {
@@ -140,6 +144,7 @@ impl Op {
             Op::ADrop { .. } => "adapter_drop",
             Op::Reent { .. } => "reentrant_closure",
             Op::Unwind { .. } => "panic_unwinds_scopes",
+            Op::SetReporter => "set_reporter_again",
         }
     }
 }
